@@ -8,7 +8,7 @@ import VpnCloud.Proofs.C09More
 import VpnCloud.Proofs.Lemmas.GuardsUsedLemmas
 /-
   The comparison guards regenerated from the Rust source (`Generated/Guards.lean`) are called by the model at the places that mirror
-  the source lines.  For each of the twelve guards this file pins the comparison at its boundary value, as a statement about the MODEL
+  the source lines.  For each of the thirteen guards this file pins the comparison at its boundary value, as a statement about the MODEL
   function that calls it: what happens when the two compared quantities are equal, and what happens one step to the side.  When a
   comparison operator changes in the source (say `<` into `<=`), the regenerated guard changes and the theorem about it below no
   longer checks.
@@ -21,6 +21,40 @@ namespace VpnCloud.Proofs.GuardsUsed
 open VpnCloud VpnCloud.Node
 open VpnCloud.Proofs.NodeLemmas VpnCloud.Proofs.NodeLemmas2 VpnCloud.Proofs.NodeInvLemmas
 open VpnCloud.Proofs.C15MoreLemmas VpnCloud.Proofs.GuardsUsedLemmas
+
+/-! ## `src/crypto/rotate.rs` -/
+
+/-- **rotMsgStale** (`msg.message_id <= self.message_id`): the guard regenerated from `RotationState::process_message` is the
+    comparison the model's `Rot.process` and `derivePanics` make.  A rotation message whose id EQUALS the id of the last one handled is
+    ignored (the state is untouched and no key is derived, so it cannot reach a panicking `derive_key`); one whose id is larger by one is
+    processed (its proposal becomes the pending key).  For all sides, messages and fresh keys. -/
+theorem rotMsgStale_boundary (s : Rot.Side) (m : Rot.Msg) (f : Nat) (bm : Codec.RotMsg) :
+    (∀ a b, Generated.rotMsgStale a b = decide (a ≤ b)) ∧
+    (Generated.rotMsgStale m.id s.id = true → Rot.process s m f = s) ∧
+    (Generated.rotMsgStale m.id s.id = false → (Rot.process s m f).pending = some (Rot.K f m.propose, f)) ∧
+    (m.id = s.id → Rot.process s m f = s) ∧
+    (m.id = s.id + 1 → (Rot.process s m f).pending = some (Rot.K f m.propose, f)) ∧
+    (Generated.rotMsgStale bm.id s.id = true → PeerCrypto.derivePanics s bm = false) := by
+  have hproc : ¬ m.id ≤ s.id → (Rot.process s m f).pending = some (Rot.K f m.propose, f) := by
+    intro h
+    unfold Rot.process
+    rw [if_neg h]
+    dsimp only
+    split <;> rfl
+  refine ⟨fun _ _ => rfl, ?_, ?_, ?_, ?_, ?_⟩
+  · intro h
+    simp only [Generated.rotMsgStale, decide_eq_true_eq] at h
+    unfold Rot.process; rw [if_pos h]
+  · intro h
+    simp only [Generated.rotMsgStale, decide_eq_false_iff_not] at h
+    exact hproc h
+  · intro h
+    unfold Rot.process; rw [if_pos (by omega)]
+  · intro h
+    exact hproc (by omega)
+  · intro h
+    simp only [Generated.rotMsgStale, decide_eq_true_eq] at h
+    unfold PeerCrypto.derivePanics; rw [if_pos h]
 
 /-! ## `src/crypto/core.rs` -/
 
